@@ -70,6 +70,18 @@ def run(prog, rec):
             if desc["kind"] == "fermionic":
                 kw["oddpos"] = 1
             x = klass(indices=indices, charge=D.py_charge(sym, case["charge"]), **kw)
+            # the same index structure read under the OTHER symmetries with the same kind of charge labels, through
+            # the generic classes, first: nothing such a call leaves behind may show in the enumeration for `sym`
+            for other in (("Z2", "Z4", "U1") if sym in ("Z2", "Z4", "U1") else ("Z2Z2", "U1U1")):
+                if other == sym:
+                    continue
+                try:
+                    oklass, _ = D.get_class(desc["kind"], "dynamic", other)
+                    okw = dict(kw, symmetry=other)
+                    y = oklass(indices=indices, charge=D.py_charge(sym, case["charge"]), **okw)
+                    list(y.gen_valid_sectors())
+                except Exception:  # noqa  (labels that are no charges of the other group)
+                    pass
             try:
                 secs = [[ser_charge(c) for c in s] for s in x.gen_valid_sectors()]
                 outcome = "ok"
